@@ -9,9 +9,15 @@ exercised against CPython by the `pyrt` correspondence stream of C20, and the ge
 against the real functions on every case).  Typing: `bytes` ↦ `Bytes`, `int` ↦ `Int`, `bool` ↦ `Bool`, `str` ↦ `Str`
 (code points), `list` ↦ `List α`, `None`-defaulted parameters ↦ `Option α`; overloading of Python operators over these
 types is resolved by Lean's type classes, partial operations return `Py α = Except PyExc α`.
+Besides these operations the translator emits, for a *positive integer literal* `k`: `a // k` and `a >> log2 k` as Lean's
+`a / k`, `a % k` as `a % k` (`Int` division/modulus are Euclidean: equal to Python's floor versions for a positive divisor)
+and `a << n` as `a * 2^n`; `a - b` and unary minus on ints as Lean's; `==`/`!=` as `BEq`, `< <= > >=` on ints as `decide`.
 No imports besides `Basic` (must link into the compiled drivers).
 -/
 namespace PyRt
+
+@[simp] theorem ok_bind {α β : Type} (a : α) (f : α → Py β) : (Except.ok a >>= f) = f a := rfl
+@[simp] theorem error_bind {α β : Type} (e : PyExc) (f : α → Py β) : ((Except.error e : Py α) >>= f) = .error e := rfl
 
 /-- Python `str` as a list of code points -/
 abbrev Str := List Nat
